@@ -413,6 +413,8 @@ def c20_5(ctx: Ctx) -> RuleResult:
                 waiting.add(f_.name)
     for f in ctx.repo.funcs_in(MOD):
         for w in nodes_in(f, ast.While):
+            if getattr(w, "_synthetic", False):
+                continue
             body_calls = [c for s in list(w.body) + [w.test] for c in ast.walk(s) if isinstance(c, ast.Call)]
             waits = any(
                 isinstance(c.func, ast.Attribute) and c.func.attr in waiting
